@@ -40,7 +40,7 @@ func genAtom(r *rand.Rand, depth int, o entryOpts) string {
 		return pick(r, []string{".", "^", "$", ".*", ".+", "^a", "b$"})
 	case 4:
 		if chance(r, o.exotic) {
-			return pick(r, []string{"\"", "\\\"", "\\\\", "\\x5c", "\\x22", "\\x00", "\\x0b", "\\v", "\\n", "\\t", "\\r", "\\f", "é", "\\x{e9}", "€", "\\x7f", "\x7f", "\\\\\"", "'", "`", "@", "~", "{{", "}}", "#"})
+			return pick(r, []string{"\"", "\\\"", "\\\\", "\\x5c", "\\x22", "\\x00", "\\x0b", "\\v", "\\n", "\\t", "\\r", "\\f", "é", "\\x{e9}", "€", "\\x7f", "\x7f", "\\\\\"", "'", "`", "@", "~", "{{", "}}", "#", "\\x{fffd}", "\uFFFD", "[\\x{fff0}-\\x{fffd}]", "\\x{10ffff}", "\\x{d7ff}"})
 		}
 		return lit()
 	case 5:
@@ -102,15 +102,16 @@ func genCmdWord(r *rand.Rand) string {
 // ---- programs ------------------------------------------------------------------------------
 
 type progOpts struct {
-	maxDepth   int
-	maxItems   int
-	includes   bool
-	defs       bool
-	cmdline    bool
-	exotic     float64
-	inline     float64
-	malformed  float64 // probability of injecting a structural fault
-	flagsPfxSf bool
+	maxDepth     int
+	maxItems     int
+	includes     bool
+	defs         bool
+	cmdline      bool
+	exotic       float64
+	inline       float64
+	includeFlags float64 // probability that an include file carries a flags line (must be rejected)
+	malformed    float64 // probability of injecting a structural fault
+	flagsPfxSf   bool
 }
 
 type Program struct {
@@ -176,6 +177,11 @@ func (g *progGen) includeFile(depth int, wordList bool) string {
 	if !wordList && chance(g.r, 0.2) {
 		lines = append(lines, "##!$ "+genEntry(g.r, g.eo))
 		g.count("include-suffix")
+	}
+	if g.o.includeFlags > 0 && chance(g.r, g.o.includeFlags) {
+		// an include file must not set flags: the whole program is rejected (with or without prefix/suffix lines)
+		lines = append(lines, "##!+ "+pick(g.r, []string{"i", "s", "is"}))
+		g.count("include-with-flags")
 	}
 	if !g.inCmd && chance(g.r, 0.25) {
 		// a file's own definitions: sometimes under a name the including file has defined already (before this
